@@ -171,6 +171,43 @@ Section Cache.
     unfold enc_issuer_list, keys. rewrite !map_map. reflexivity.
   Qed.
 
+  (* ---------------------------------------------------------------- Cache.subjects
+     `[decode(c) for c in self._db.keys()]`: the subjects the cache lists are the NameIDs that were filed, in the
+     order of filing (`keys c` is what the model's view lists) -- given that decode brings every key back.  That
+     hypothesis is NECESSARY: whenever the listed subjects are the filed ones, decode has inverted the code of each
+     of them (subjects_needs_roundtrip) -- the coding of seeded change C19-7 (quote_plus / unquote) does not, for a
+     NameID with a blank. *)
+  Definition enc_subject_list (l : list subj) : pyval := PList (map nid l).
+
+  Lemma subjects_comp (dec : pyval -> pyval) c :
+    (forall s, In s (keys c) -> is_bad (dec (PStr (skey s))) = false) ->
+    src2_cache_subjects dec (enc_cache c) = PList (map (fun s => dec (PStr (skey s))) (keys c)).
+  Proof.
+    intros G. unfold src2_cache_subjects. change (p2_attr (enc_cache c) "_db") with (enc_db c).
+    unfold enc_db, p2_keys, dict_view. rewrite s1_good by reflexivity. rewrite db_not_obj.
+    rewrite p2_listcomp_list, listcomp_go_map.
+    - unfold keys. rewrite !map_map. reflexivity.
+    - intros x Hx. apply in_map_iff in Hx as [y [<- Hy]]. apply in_map_iff in Hy as [[s l] [<- Hs]].
+      cbn [enc_sub_entry fst py_bind p2_bind is_bad]. apply G. unfold keys. apply in_map_iff. exists (s, l). split; [reflexivity|exact Hs].
+  Qed.
+
+  Theorem src2_cache_subjects_is_model c : src2_cache_subjects decode_ (enc_cache c) = enc_subject_list (keys c).
+  Proof.
+    rewrite subjects_comp by (intros s _; rewrite decode_skey; apply nid_good).
+    unfold enc_subject_list. f_equal. apply map_ext. intros s. apply decode_skey.
+  Qed.
+
+  Theorem subjects_needs_roundtrip (dec : pyval -> pyval) c :
+    (forall s, In s (keys c) -> is_bad (dec (PStr (skey s))) = false) ->
+    src2_cache_subjects dec (enc_cache c) = enc_subject_list (keys c) ->
+    forall s, In s (keys c) -> dec (PStr (skey s)) = nid s.
+  Proof.
+    intros G H. rewrite subjects_comp in H by exact G. unfold enc_subject_list in H. injection H as H.
+    induction (keys c) as [|k r IH]; intros s [].
+    - subst k. cbn [map] in H. injection H as H _. exact H.
+    - cbn [map] in H. injection H as _ H. apply IH; [intros s' Hs'; apply G; right; exact Hs'|exact H|assumption].
+  Qed.
+
   (* ---------------------------------------------------------------- Population.stale_sources_for_person *)
   Definition enc_population (c : cache) : pyval := PObj [("__class__", PStr "Population"); ("cache", enc_cache c)].
   (* the `sources` argument: a list of entity ids; None (the default) and the empty list mean "all" *)
@@ -510,6 +547,17 @@ Section Stated.
   Lemma stated_cache_entities c s :
     src2_cache_entities code_ (enc_cache skey ikey c) (nid s) = enc_olist ikey (option_map keys (lookup s c)).
   Proof. destruct OK as (A & B & C & D & E & F & G). apply src2_cache_entities_is_model; assumption. Qed.
+
+  Lemma stated_cache_subjects c : src2_cache_subjects decode_ (enc_cache skey ikey c) = enc_subject_list nid (keys c).
+  Proof. destruct OK as (A & B & C & D & E & F & G). apply src2_cache_subjects_is_model; assumption. Qed.
+
+  (* the round trip is needed, not only sufficient: with ANY decoding function (total on the keys), if the cache
+     lists exactly the subjects that were filed then that function has inverted the code of each of them *)
+  Lemma stated_subjects_needs_roundtrip (dec : pyval -> pyval) c :
+    (forall s, In s (keys c) -> is_bad (dec (PStr (skey s))) = false) ->
+    src2_cache_subjects dec (enc_cache skey ikey c) = enc_subject_list nid (keys c) ->
+    forall s, In s (keys c) -> dec (PStr (skey s)) = nid s.
+  Proof. destruct OK as (A & B & C & D & E & F & G). apply subjects_needs_roundtrip; assumption. Qed.
 
   Lemma stated_stale_sources (n : Z) c s absent srcs :
     src2_stale_sources (PInt n) parse code_ (enc_population skey ikey c) (nid s) (enc_sources ikey absent srcs)
